@@ -610,6 +610,44 @@ async fn exec_async(inp: &[u128]) -> (Vec<u128>, String, String) {
             } else if done != coll_done {
                 oracle = format!("FAIL: mirror done flag {} but observed vector done {}", done, coll_done);
             }
+            // A second-level subscription taken from the mirror while a reader holds a view of it and an event is on its way
+            // (the mirror task is queued for the write lock behind the reader): the subscriber's snapshot and its event stream
+            // must fit together -- nothing lost, nothing twice.
+            if oracle.is_empty() {
+                if let Ok(guard) = s.mirror.borrow().await {
+                    // (the extra element must not push the first-level mirror over its size limit)
+                if !obs.is_done() && obs.len() < mx {
+                        obs.push(424_242);
+                    }
+                    barrier().await;
+                    let mut fut = Box::pin(s.mirror.subscribe(BUF));
+                    let early = std::future::poll_fn(|cx| std::task::Poll::Ready(std::future::Future::poll(fut.as_mut(), cx))).await;
+                    drop(guard);
+                    barrier().await;
+                    let sub2 = match early {
+                        std::task::Poll::Ready(r) => r,
+                        std::task::Poll::Pending => fut.await,
+                    };
+                    match sub2 {
+                        Ok(sub2) => {
+                            let m2 = sub2.mirror(1_000_000);
+                            barrier().await;
+                            barrier().await;
+                            let expect: Vec<u64> = obs.iter().copied().collect();
+                            match m2.borrow().await {
+                                Ok(r) => {
+                                    let v: Vec<u64> = r.iter().copied().collect();
+                                    if v != expect {
+                                        oracle = format!("FAIL: second-level mirror (subscribed from the mirror while it was read and updated) holds {:?} but the collection is {:?}", v, expect);
+                                    }
+                                }
+                                Err(e) => oracle = format!("FAIL: second-level mirror failed with error class {}", err_code(&e)),
+                            };
+                        }
+                        Err(e) => oracle = format!("FAIL: subscribing from a healthy mirror failed with error class {}", err_code(&e)),
+                    }
+                }
+            }
         }
         Err(code) => {
             let v = s.mirror.detach().await;
@@ -661,6 +699,7 @@ async fn exec_async(inp: &[u128]) -> (Vec<u128>, String, String) {
     if oracle.is_empty() && !harness_err.is_empty() {
         oracle = format!("FAIL: {harness_err}");
     }
+
 
     let subkind = if s.done_at {
         "afterdone"
